@@ -237,7 +237,16 @@ def main():
     for pid in ALL:
         if pid not in CLAIMED:
             continue
-        c = CLAIMED[pid]
+        c = dict(CLAIMED[pid])
+        # the rules that actually run (ids and one-line statements), taken from the evidence the check itself writes
+        try:
+            ev = json.load(open(f"evidence/{pid}.json"))
+            rules = ev.get("coverage", {}).get("rules", {})
+            lines = [f"{rid}: {r['text']}" for rid, r in sorted(rules.items()) if r.get("instances", 0) > 0 and r.get("text")]
+            if lines:
+                c["text"] = c["text"] + " Rules decided on every run (see evidence): " + "; ".join(lines) + "."
+        except Exception:
+            pass
         checks.append({
             "property_id": pid,
             "quick_cmd": f"./check {pid} --tier quick",
